@@ -17,7 +17,7 @@ RULE = ('from a random $-free tree (1-3 document streams) choose a target path a
         'reference resolved (or was required to fail); distinct = distinct (documents, host).')
 ASSUMPTIONS = ['merge model for the $merge expansion', 'overlapping host/target not generated (C08/C09 territory)']
 
-KEYS = ['a', 'b', 'c', 'd', 'x.y']
+KEYS = ['a', 'b', 'c', 'd', 'x.y', 'a.b']
 
 
 def map_paths(t, pre=()):
